@@ -403,6 +403,61 @@ func c06(r *Report) {
 					}
 				}
 				r.Paths += len(paths)
+				// the fallback host stands in only for an absent SNI: a path on which cert()
+				// receives the enclosing function's host took the `ServerName == ""` edge
+				okFallback := true
+				for _, p := range paths {
+					for _, leaf := range resolveOnPath(h, p) {
+						par, isPar := resolveFree(leaf).(*ssa.Parameter)
+						if !isPar || par.Parent() != f.Parent() {
+							continue
+						}
+						sniEmpty := false
+						for i := 0; i+1 < len(p); i++ {
+							blk := p[i]
+							iff, isIf := blk.Instrs[len(blk.Instrs)-1].(*ssa.If)
+							if !isIf {
+								continue
+							}
+							b, isB := iff.Cond.(*ssa.BinOp)
+							if !isB || (b.Op != token.EQL && b.Op != token.NEQ) {
+								continue
+							}
+							s1, c1 := constString(b.X)
+							s2, c2 := constString(b.Y)
+							other := b.X
+							if c1 && s1 == "" {
+								other = b.Y
+							} else if !(c2 && s2 == "") {
+								continue
+							}
+							isSNI := false
+							for _, ol := range append(resolveOnPath(other, p[:i+1]), other) {
+								if ld, isLd := ol.(*ssa.UnOp); isLd && ld.Op == token.MUL {
+									if fa, isFa := ld.X.(*ssa.FieldAddr); isFa && fieldObj(fa).Name() == "ServerName" {
+										isSNI = true
+									}
+								}
+							}
+							if !isSNI {
+								continue
+							}
+							empty := blk.Succs[0]
+							if b.Op == token.NEQ {
+								empty = blk.Succs[1]
+							}
+							if p[i+1] == empty {
+								sniEmpty = true
+							}
+						}
+						if !sniEmpty {
+							okFallback = false
+						}
+					}
+				}
+				if f.Parent() != nil && len(f.FreeVars) > 1 {
+					r.Decide("path", "fallback host used only without SNI in "+fnName(f), okFallback, "every path that hands the enclosing function's host to cert() took the ServerName == \"\" edge", "the fallback host replaces a name the client did send (e.g. an IP literal in SNI): the certificate presented is not for the host the client named", c.Pos())
+				}
 				// and the name is the client's SNI or the configured fallback host, nothing else
 				srcBad := ""
 				for _, leaf := range resolveAll(h) {
